@@ -130,6 +130,25 @@ PROFILES = [
          ("result.extend([Rule.WITH, weight])", "{{ σ with result := σ.result ++ [\"with\", Dec.render c.d σ.weight] }}", True),
      ]},
     # ---- exporter.py
+    # `format(key, value)`: the value is a `Py.Fll.Val`, the key `None` is the empty string (both are false in `if key:`,
+    # the only use of a false key); `d` = settings.decimals (read by `Op.str`) is not a parameter of the Python function
+    {"name": "FllExporter_format", "module": "fuzzylite.exporter", "object": "FllExporter.format", "file": FILE,
+     "params": [("d", "Nat"), ("key", "String"), ("value", "Py.Fll.Val")],
+     "locals": {"result": "List String", "v_i": "Py.Fll.Val", "f_value": "String"}, "ret": "String",
+     "self_call": "self.format(key=_0, value=_1)", "rec_env": ["d"], "rec_fuel": "Py.Fll.Val.depth value + 1",
+     "iter_view": {"Py.Fll.Val": ("(Py.Fll.Val.items {0})", "List Py.Fll.Val")},
+     "externals": [
+         ("None", '""', "String", True),
+         ("value == ''", "(Py.Fll.Val.isEmptyStr value)", "Bool", True),
+         ("value is None", "(Py.Fll.Val.isNone value)", "Bool", True),
+         ("isinstance(value, bool)", "(Py.Fll.Val.isBool value)", "Bool", True),
+         ("isinstance(value, float)", "(Py.Fll.Val.isNum value)", "Bool", True),
+         ("isinstance(value, (tuple, list, set))", "(Py.Fll.Val.isTuple value)", "Bool", True),
+         ("str(value).lower()", "(Py.Fll.Val.boolText value)", "String", True),
+         ("Op.str(value)", "(Py.Fll.Val.numStr d value)", "String", True),
+         ("str(value)", "(Py.Fll.Val.strOf value)", "String", True),
+         ("' '.join(_0)", "(Py.joinSp {0})", "String", True, ["List String"]),
+     ]},
     exp("term", [("term", f"{F}.Term")]),
     exp("norm", [("norm", "Option String")]),
     exp("activation", [("activation", f"Option {F}.Activ")]),
